@@ -11,5 +11,6 @@ import (
 	_ "verif/checks/c10"
 	_ "verif/checks/cachex"
 	_ "verif/checks/c17"
+	_ "verif/checks/c18"
 	_ "verif/checks/c20"
 )
